@@ -98,12 +98,55 @@ def check_constructor_states(ctx: Ctx):
             outp = agg.attrs.get("_Panoptica_Aggregator__output_file")
             outs = outp.s if isinstance(outp, PathV) else outp
             ctx.decide("R17.3", init, init.node, construct + ":rows-path", "rows will be written to the canonical output path", outs == canon, {"output_file": repr(outp)}, nontrivial=False)
-    # a header mismatch is rejected
-    fs = FS({"/d/out.tsv": [["subject_name", "other-metric"]]})
-    agg, out, it = new_session(prog, fs, "/d/out.tsv")
-    ctx.decide("R17.2", init, out.node, f"{init.qual}:header-mismatch", "an output file written with a different setup is rejected", agg is None and out.kind == "raise", {"outcome": out.kind}, nontrivial=False)
+    check_header_rejection(ctx)
     if n < 16:
         ctx.undecided("R17.floor", init, None, "floor:R17.2", f"{n} constructor states evaluated")
+
+
+def check_no_hand_parsing(ctx: Ctx):
+    """R17.8: the claim file and the output file are written with csv.writer, which quotes cells
+    containing the delimiter, quotes or line breaks (subject names are arbitrary); every reader of
+    these files must therefore be a csv.reader with the same dialect.  A session (continue an
+    existing file, evaluate, evaluate a duplicate) is run on the abstract file system and every
+    line-by-line read of a file is reported."""
+    prog = ctx.prog
+    ev = agg_class(prog).lookup("evaluate")
+    fs = FS({"/d/out.tsv": [header_row(), ["s0"] + ["0.5"] * (len(header_row()) - 1)]})
+    agg, out, it = new_session(prog, fs, "/d/out.tsv")
+    if agg is None:
+        ctx.undecided("R17.8", ev, ev.node, "hand-parsing:session", f"aggregator constructor not evaluable on an existing file: {out.kind} {out.exc}")
+        return
+    for s in ("s1", "s0", "s1"):
+        o, _ = evaluate_subject(prog, agg, fs, s, lock_objs=it.root.lock_objs)
+        if o.kind == "raise" and o.exc not in (None, "ValueError"):
+            break
+    raw = fs.__dict__.get("raw_reads", [])
+    sites = sorted({(q, getattr(n, "lineno", 0)) for _, n, q in raw})
+    ctx.decide("R17.8", ev, raw[0][1] if raw else ev.node, "hand-parsing:aggregator", "files written with csv.writer are read back only through csv.reader (quoted subject names are not recovered by splitting lines)", not raw, {"line_by_line_reads": [f"{q}:{ln}" for q, ln in sites]})
+
+
+def check_header_rejection(ctx: Ctx):
+    """R17.2: rows are written by position, so an existing file is continued only if its header
+    is exactly the header this aggregator would write: other columns, the same columns in another
+    order (groups declared in another order), or a prefix of them are rejected."""
+    prog = ctx.prog
+    init = agg_class(prog).lookup("__init__")
+    own = header_row()
+    cases = {
+        "other-columns": ["subject_name", "other-metric"],
+        "same-columns-other-order": [own[0]] + list(reversed(own[1:])),
+        "groups-exchanged": [own[0]] + own[1 + (len(own) - 1) // 2 :] + own[1 : 1 + (len(own) - 1) // 2],
+        "prefix": own[:-1],
+    }
+    for name, hdr in cases.items():
+        fs = FS({"/d/out.tsv": [list(hdr), ["s0"] + ["0.5"] * (len(hdr) - 1)]})
+        agg, out, it = new_session(prog, fs, "/d/out.tsv")
+        ok = (agg is None and out.kind == "raise") if not out.decisions else None
+        ctx.decide("R17.2", init, out.node, f"{init.qual}:header-mismatch:{name}", "an output file whose header differs from this aggregator's header (columns or their order) is rejected, not continued", ok, {"outcome": out.kind, "existing_header": hdr[:4]})
+    # the identical header is accepted
+    fs = FS({"/d/out.tsv": [list(own)]})
+    agg, out, it = new_session(prog, fs, "/d/out.tsv")
+    ctx.decide("R17.2", init, out.node, f"{init.qual}:header-identical", "a file with exactly this aggregator's header is continued", agg is not None, {"outcome": out.kind}, nontrivial=False)
 
 
 def _session(prog, fs, arg, subjects, lock_objs=None):
@@ -236,6 +279,7 @@ def check(ctx: Ctx):
     check_neighbours(ctx)
     if ctx.tier == "thorough":
         check_double_crash(ctx)
+    check_no_hand_parsing(ctx)
     # the header an aggregator writes / compares is determined by its own evaluator alone (R15.7)
     from . import c03, c15
 
